@@ -49,7 +49,7 @@ Inductive sa (b : bool) : chain -> chain -> Prop :=
 | sa_obj s c' p p' : Forall2 (kv_rel (sa b)) p p' -> sa b [LObj s false (canon_obj p) p] [LObj s false c' p'].
 
 Lemma top_sch_single l : top_sch [l] = l_sch l.
-Proof. destruct l; reflexivity. Qed.
+Proof. destruct l as [? ? sc ?|? ? sc ?|? ? sc ?]; cbn [top_sch chain_sch l_sch]; destruct sc; reflexivity. Qed.
 
 Lemma top_sch_nil : top_sch [] = ScAlways.
 Proof. reflexivity. Qed.
